@@ -111,4 +111,97 @@ theorem user_objects (c : Comps S P Row) (cfg : Cfg) (picks : List Nat) (seed : 
     (l : Nat) (h : lrnCount ts l > 1 ∨ cfg.multi = true) :
     (runEvents c cfg picks seed ts).2 l = c.init l := user_objects' c cfg picks seed ts l h
 
+
+/-! ## phase 2: process-level state, worker lifetimes, consecutive runs -/
+
+section phase2
+variable {G : Type}
+
+/-- `run_eq_spec` with an explicit process state `σ` threaded through every evaluation of an OS
+process: under the isolation hypothesis `ProcessLocalClean` the run — in-process, or on workers with
+any distribution of the chunks (`sched.assign`), any `maxchunksperchild` retirement and any
+interleaving — gives the spec result of the σ-free clean components -/
+theorem run_eq_spec_process_state (cp : CompsP G S P Row) (Clean : G → Prop) (hc : ProcessLocalClean cp Clean)
+    (cfg : Cfg) (sched : Sched) (seed : Nat) (ts : List Triple) :
+    runP cp cfg sched seed ts = resultSP cp seed ts :=
+  runPFrom_eq_spec' hc cfg sched seed ts cp.σ0 hc.fresh
+
+/-- the same from any clean state of the calling process -/
+theorem run_from_clean_state (cp : CompsP G S P Row) (Clean : G → Prop) (hc : ProcessLocalClean cp Clean)
+    (cfg : Cfg) (sched : Sched) (seed : Nat) (ts : List Triple) (σ : G) (hσ : Clean σ) :
+    runPFrom cp cfg sched seed σ ts = resultSP cp seed ts ∧ Clean (stateAfter cp cfg sched seed σ ts) :=
+  ⟨runPFrom_eq_spec' hc cfg sched seed ts σ hσ, stateAfter_clean hc cfg sched seed ts σ hσ⟩
+
+/-- `second_run_eq`: a second construct-and-run in the same process (seed `s₂`) equals a fresh run with `s₂`,
+whatever the first run was -/
+theorem second_run_eq (cp : CompsP G S P Row) (Clean : G → Prop) (hc : ProcessLocalClean cp Clean)
+    (cfg₁ cfg₂ : Cfg) (sched₁ sched₂ : Sched) (s₁ s₂ : Nat) (ts₁ ts₂ : List Triple) :
+    runPFrom cp cfg₂ sched₂ s₂ (stateAfter cp cfg₁ sched₁ s₁ cp.σ0 ts₁) ts₂ = runP cp cfg₂ sched₂ s₂ ts₂ :=
+  second_run_eq' hc cfg₂ sched₂ s₂ ts₂ cfg₁ sched₁ s₁ ts₁
+
+/-- `retire_invisible`: `maxchunksperchild` (a retired worker = a fresh process state), the number of
+processes, the distribution of chunks over workers and the interleaving are invisible in the Result -/
+theorem retire_invisible (cp : CompsP G S P Row) (Clean : G → Prop) (hc : ProcessLocalClean cp Clean)
+    (cfg cfg' : Cfg) (sched sched' : Sched) (seed : Nat) (ts : List Triple) :
+    runP cp cfg sched seed ts = runP cp cfg' sched' seed ts :=
+  retire_invisible' hc cfg sched seed ts cfg' sched'
+
+/-- every chunk is processed in exactly one worker lifetime, for every assignment and every `maxchunksperchild` -/
+theorem workers_partition_chunks {α} (mc : Nat) (assign : List Nat) (chunks : List α) :
+    (retire mc (livesOf assign chunks)).flatten.Perm chunks := workers_partition_chunks' mc assign chunks
+
+/-- `chunker_partition`: `_max_chunker` cuts a chunk into consecutive batches, none empty, none longer than
+`maxtasksperchunk` (0 = never split) -/
+theorem chunker_partition {α} (mt : Nat) (l : List α) :
+    (maxChunker mt l).flatten = l ∧ ∀ ch ∈ maxChunker mt l, ch ≠ [] ∧ (0 < mt → ch.length ≤ mt) :=
+  chunker_partition' mt l
+
+/-- the hypothesis is satisfiable: components that ignore σ are clean with `Clean := fun _ => True` -/
+example (cp : CompsP G S P Row) (h : ∀ σ v e s seed, (cp.evalP σ v e s seed).1 = (cp.evalP cp.σ0 v e s seed).1) :
+    ProcessLocalClean cp (fun _ => True) := ⟨trivial, fun σ _ => h σ, fun _ _ _ _ _ _ => trivial⟩
+
+/-- … and it is forced (the shape of finding F3): for `leakyComps`, whose evaluation records what earlier
+evaluations left in the process, no clean-state invariant exists and the in-process Result differs from
+the Result on two workers -/
+theorem process_state_forced_counterexample :
+    (¬ ∃ Clean, ProcessLocalClean leakyComps Clean) ∧
+    (runP leakyComps ⟨1, 0, 0⟩ ⟨[], []⟩ 1 leakyTriples).ints ≠
+      (runP leakyComps ⟨2, 0, 0⟩ ⟨[0, 1, 2, 3, 4, 5, 6], []⟩ 1 leakyTriples).ints := by
+  refine ⟨leaky_not_clean', ?_⟩
+  rw [leaky_inprocess_ints', leaky_workers_ints']; decide
+
+/-- without the hypothesis `maxchunksperchild` is visible: one worker that is never retired vs. retired
+after every chunk -/
+theorem retire_visible_counterexample :
+    (runP leakyComps ⟨1, 7, 0⟩ ⟨[], []⟩ 1 leakyTriples).ints ≠ (runP leakyComps ⟨1, 1, 0⟩ ⟨[], []⟩ 1 leakyTriples).ints := by
+  rw [leaky_one_worker_ints'.1, leaky_one_worker_ints'.2]; decide
+
+/-- without the hypothesis a second run in the same process differs from a fresh run -/
+theorem second_run_differs_counterexample :
+    (runPFrom leakyComps ⟨1, 0, 0⟩ ⟨[], []⟩ 1 (stateAfter leakyComps ⟨1, 0, 0⟩ ⟨[], []⟩ 1 0 leakyTriples) leakyTriples).ints ≠
+      (runP leakyComps ⟨1, 0, 0⟩ ⟨[], []⟩ 1 leakyTriples).ints := by
+  rw [leaky_second_run', leaky_inprocess_ints']; decide
+
+end phase2
+
+/-! ### the Result table by table (`rerun_eq` is about all of them and `.experiment`) -/
+
+/-- `.experiment` of every run is the meta record of the triple list and the seed -/
+theorem experiment_meta (c : Comps S P Row) (cfg : Cfg) (picks : List Nat) (seed : Nat) (ts : List Triple) :
+    (run c cfg picks seed ts).exp = some (metaOf seed ts) := exp_eq' c cfg picks seed ts
+
+/-- the environments table holds exactly one row per distinct environment whose `params` does not raise,
+under its first-appearance id — in every configuration and schedule -/
+theorem env_row_iff (c : Comps S P Row) (cfg : Cfg) (picks : List Nat) (seed : Nat) (ts : List Triple) (i : Nat) (p : P) :
+    (i, p) ∈ (run c cfg picks seed ts).envs ↔ ∃ e ∈ envsOf ts, i = idOf (envsOf ts) e ∧ c.envParams e = .ok p :=
+  env_row_iff' c cfg picks seed ts i p
+
+theorem lrn_row_iff (c : Comps S P Row) (cfg : Cfg) (picks : List Nat) (seed : Nat) (ts : List Triple) (i : Nat) (p : P) :
+    (i, p) ∈ (run c cfg picks seed ts).lrns ↔ ∃ l ∈ lrnsOf ts, i = idOf (lrnsOf ts) l ∧ c.lrnParams l = .ok p :=
+  lrn_row_iff' c cfg picks seed ts i p
+
+theorem val_row_iff (c : Comps S P Row) (cfg : Cfg) (picks : List Nat) (seed : Nat) (ts : List Triple) (i : Nat) (p : P) :
+    (i, p) ∈ (run c cfg picks seed ts).vals ↔ ∃ v ∈ valsOf ts, i = idOf (valsOf ts) v ∧ c.valParams v = .ok p :=
+  val_row_iff' c cfg picks seed ts i p
+
 end Coba.C01
